@@ -112,10 +112,16 @@ func (t *Term) write(sb *strings.Builder) {
 			fmt.Fprintf(sb, "(%s %s)", b.Op, b.Sort)
 		}
 		sb.WriteString(") ")
-		if len(t.Args) > 1 { // patterns
+		var pats []*Term
+		for _, p := range t.Args[1:] {
+			if !hasIte(p) { // ite is not allowed inside patterns
+				pats = append(pats, p)
+			}
+		}
+		if len(pats) > 0 { // patterns
 			sb.WriteString("(! ")
 			t.Args[0].write(sb)
-			for _, p := range t.Args[1:] {
+			for _, p := range pats {
 				sb.WriteString(" :pattern (")
 				p.write(sb)
 				sb.WriteString(")")
@@ -1003,4 +1009,19 @@ func sortedKeys[V any](m map[string]V) []string {
 	}
 	sort.Strings(ks)
 	return ks
+}
+
+func hasIte(t *Term) bool {
+	if t.IsLit {
+		return false
+	}
+	if t.Op == "ite" {
+		return true
+	}
+	for _, a := range t.Args {
+		if hasIte(a) {
+			return true
+		}
+	}
+	return false
 }
